@@ -105,3 +105,11 @@ CHECKS["C19"] = dict(
     design_ref="DESIGN.md section 3 C19",
     note="Budgets of all variants are >= the default's so memory refusals cannot legitimately differ. Random arrays are excluded from the value comparison (fresh root seed per build).",
 )
+
+CHECKS["C09"] = dict(
+    level="fault_enumeration",
+    technique="fault enumeration over generated programs: every crash point at task granularity (schedule-owning executor) and at chunk-write granularity (exception inside the store's set) is executed, followed by compute(resume=True); oracle from the clean run, the post-crash store listing and the resumed run's trace/callbacks",
+    text="For each generated program a clean run yields T tasks and W chunk writes; all T+1+W crash points are executed (evenly sampled to 48 for large plans). After every crash the resumed computation must either refuse before any task (storage that cannot report completeness) or return the clean run's values; operations skipped must have had all output chunks present (checked against the stored grid metadata), complete operations must not be re-run (except array creation / 0-d outputs), and the resumed run must not delete or change pre-existing chunks.",
+    design_ref="DESIGN.md section 3 C09",
+    note="Crash = exception at a task boundary or inside a chunk write; completed writes are durable. Pre-existing fully initialized user targets are outside the domain (resume defines complete as all chunks present).",
+)
